@@ -168,6 +168,8 @@ def payload_cases(rng, tier):
             (b'SYST:A;BLK #13a\nb;BAR\nBAR\n', ['6()', '8(bytes:610a62)', '7()', '3()']),
             (b"SYST:STR 'x\n\ny';A;BAR\n", ['9(str:780a0a79)', '6()', '7()']),
             (b'SYST:A;*RST;BLK #11\n;A\n', ['6()', '1()', '8(bytes:0a)', '6()'])]
+    # the same messages behind complete messages that arrive in the same read
+    msgs = msgs + [(b'BAR\nSYST:A\n' + t, ['3()', '6()'] + l) for (t, l) in msgs] + [(b'BAR\n' + t, ['3()'] + l) for (t, l) in msgs[:2]]
     for text, log in msgs:
         scheds = [[1] * len(text), []] + [[k, len(text)] for k in range(1, len(text))]
         for sc in scheds:
